@@ -35,6 +35,14 @@ type Op struct {
 
 type Case struct {
 	Ops []Op `json:"ops"`
+	// Refuse: rules (kind, id) whose creation the data plane turns down in every session, e.g. a URR with the periodic
+	// trigger but no measurement period.  The session layer keeps such an id; removing it later fails in the data plane.
+	Refuse []Refused `json:"refuse,omitempty"`
+}
+
+type Refused struct {
+	Kind string `json:"kind"` // FAR QER URR BAR
+	ID   uint32 `json:"id"`
 }
 
 // Oracles selects which groups of assertions are evaluated.
@@ -207,6 +215,16 @@ func Run(c Case, or Oracles) (res Result) {
 		panic(fmt.Sprintf("infrastructure: %v", err))
 	}
 	res.Stats.Classes = map[string]bool{}
+	if len(c.Refuse) > 0 {
+		d.Refuse = func(kind string, seid uint64, id uint32) bool {
+			for _, r := range c.Refuse {
+				if r.Kind == kind && r.ID == id {
+					return true
+				}
+			}
+			return false
+		}
+	}
 	e := &exec{or: or, st: st, d: d, r: stack.NewRunner(st, d),
 		live: map[uint64]*msess{}, released: map[uint64]bool{}, nodes: map[int]*nodeObj{}, stats: &res.Stats}
 	defer func() {
